@@ -32,6 +32,8 @@ where
 
     pub(crate) fn from_region(region: &Region, stored_len: usize) -> Self {
         let reader = region.create_reader();
+        // Only elements physically in the region are addressable (see RawMmapSource).
+        let stored_len = stored_len.min(reader.len().saturating_sub(HEADER_OFFSET) / Self::SIZE_OF_T);
         let slice = reader.prefixed(HEADER_OFFSET);
         let ptr = slice.as_ptr();
 
